@@ -7,13 +7,13 @@ Open Scope N_scope.
 
 Lemma micro_attpc c me A S o :
   micro c me A S = Some o -> ctl_ok A = true -> att_pc (a_pc (o_a o)) = true ->
-  a_sid (o_a o) = a_sid A /\ (att_pc (a_pc A) = true \/ a_pc A = R2).
+  a_sid (o_a o) = a_sid A /\ (att_pc (a_pc A) = true \/ (a_pc A = R2 \/ a_pc A = R2n)).
 Proof.
   intros H Q. destruct A as [role alive multi sid tok pc stack R notified parked].
   destruct pc; micro_cases H; cbn [o_a]; pre_case Q Q1 Q2 Q3;
     first [ solve [intros X; discriminate X]
           | solve [intros _; split; [reflexivity|left; reflexivity]]
-          | solve [intros _; split; [reflexivity|right; reflexivity]]
+          | solve [intros _; split; [reflexivity|right; first [left; reflexivity|right; reflexivity]]]
           | try split_frame Q1 Q2;
             first [ solve [intros X; discriminate X]
                   | solve [intros _; split; [reflexivity|left; reflexivity]] ] ].
